@@ -208,3 +208,22 @@ func HarnessC05SharedObject() {
 	verifAssert(sameOutcome(o2, solo2), "goroutine-2-outcome-equals-solo")
 	verifReach("end")
 }
+
+// HarnessC15Recycled: two one-shot validations in a row through the (history-mode) pools, each with a
+// pattern of its own, valid or not: the second one uses ITS expression (an invalid one is reported as
+// such), whatever the recycled string validator served before.
+func HarnessC15Recycled() {
+	i, j := verifChoose(len(c15Pats)), verifChoose(len(c15Pats))
+	mk := func(k int) *spec.Schema {
+		s := schemaOfType("string")
+		s.Pattern = c15Pats[k]
+		return &s
+	}
+	d := []string{"ab", "z-a", "cc"}[verifChoose(3)]
+	_ = AgainstSchema(mk(i), d, nil)
+	got := outcomeOfError(AgainstSchema(mk(j), d, nil))
+	fresh := runFresh(mk(j), d, nil)
+	verifAssert(verifIff(got.valid, fresh.valid) && verifSameSet(got.errs, fresh.errs), "second-validation-uses-its-own-expression")
+	verifAssert(got.valid == (c15Valid[j] && verifMatches(c15Pats[j], d)), "pattern-verdict-is-go-regexp-search")
+	verifReach("end")
+}
